@@ -41,6 +41,15 @@ class MaybeConstantView {
   constexpr ValueT UncheckedRead() const { return value_.ValueOrDefault(); }
   constexpr bool Ok() const { return value_.Known(); }
 
+  // Generated Equals() and UncheckedEquals() methods compare parameters the
+  // same way they compare fields.
+  constexpr bool Equals(const MaybeConstantView &other) const {
+    return Read() == other.Read();
+  }
+  constexpr bool UncheckedEquals(const MaybeConstantView &other) const {
+    return UncheckedRead() == other.UncheckedRead();
+  }
+
  private:
   ::emboss::support::Maybe<ValueT> value_;
 };
